@@ -97,6 +97,9 @@ type Union struct {
 	Name        string
 	Description string
 	Types       map[string]*Object
+	// GoFields names, for a member type registered under another name than its
+	// Go type's, the embedded field of the union struct that holds it.
+	GoFields map[string]string
 }
 
 func (*Union) isType() {}
